@@ -84,7 +84,7 @@ func runOne(c Case, out *bufio.Writer, tmp string) (status string) {
 		return "panic-generate " + firstLine(pe.Value)
 	}
 	if err != nil {
-		return "error-generate"
+		return "error-generate " + firstLine(err.Error())
 	}
 	return "ok"
 }
@@ -523,7 +523,7 @@ func mutateTokens(t *rapid.T, text string) string {
 func structural(t *rapid.T) Case {
 	n := rapid.IntRange(1, 4).Draw(t, "len")
 	var sb strings.Builder
-	c := Case{Entry: "main.thrift", Files: map[string]string{}, Src: "structural"}
+	c := Case{Entry: "shape.thrift", Files: map[string]string{}, Src: "structural"}
 	name := func(prefix string, i int) string { return fmt.Sprintf("%s%d", prefix, i%n) }
 	kind := rapid.SampledFrom([]string{"typedef-lasso", "self-default-literal", "docstring-shapes", "typedef-cycle", "const-cycle", "const-struct-default-cycle", "struct-default-self", "struct-default-chain", "service-cycle", "include-loop", "self-include", "dangling-type", "dangling-const", "dangling-service", "typedef-through-container-cycle", "required-struct-cycle", "union-self", "exception-throws-cycle", "const-enum-ref-missing", "deep-typedef-chain", "const-of-recursive-struct", "multi-file-program"}).Draw(t, "kind")
 	c.Shape = fmt.Sprintf("%s-%d", kind, n)
@@ -642,7 +642,7 @@ func structural(t *rapid.T) Case {
 		}
 		c.Entry = "f0.thrift"
 	case "self-include":
-		sb.WriteString("include \"./main.thrift\"\nstruct S { 1: optional main.S s }\nconst i32 K = main.K2\nconst i32 K2 = 5\n")
+		sb.WriteString("include \"./shape.thrift\"\nstruct S { 1: optional shape.S s }\nconst i32 K = shape.K2\nconst i32 K2 = 5\n")
 	case "dangling-type":
 		sb.WriteString("struct S { 1: optional Missing m \n 2: optional list<map<string, other.Gone>> x }\n")
 	case "dangling-const":
@@ -680,7 +680,7 @@ func structural(t *rapid.T) Case {
 		sb.WriteString("struct Node { 1: optional Node nxt \n 2: optional i32 v = 3 }\nconst Node LIST = {\"nxt\": {\"nxt\": {\"v\": 1}}}\n")
 	}
 	if len(c.Files) == 0 {
-		c.Files["main.thrift"] = sb.String()
+		c.Files["shape.thrift"] = sb.String()
 	}
 	// embed the shape into a generated program (its names never clash with the shape's)
 	if rapid.IntRange(0, 3).Draw(t, "embed") == 0 {
@@ -773,6 +773,7 @@ func replayOne(t *testing.T, f *ev.Failure) bool {
 	if err != nil {
 		t.Fatalf("environment: %v", err)
 	}
+	t.Logf("observed outcome: %s", res[0])
 	ev.Report(t, f.Unit, c, verdict(c, res[0], scratch))
 	return true
 }
